@@ -376,6 +376,43 @@ def classify(rec):
 TIER = "quick"
 
 
+BAD_ESCAPES = {
+    "def_cfa_expression-no-length": [0x0F],
+    "def_cfa_expression-length-continues": [0x0F, 0x80],
+    "expression-no-register": [0x10],
+    "expression-no-length": [0x10, 0x03],
+    "const1u-without-operand": [0x0F, 0x02, 0x08],
+    "const2u-half-operand": [0x0F, 0x03, 0x0A, 0x34],
+    "operation-longer-than-expression": [0x0F, 0x01, 0x08, 0x2A],
+    "def_cfa-without-offset": [0x0C, 0x07],
+    "advance_loc4-truncated": [0x04, 0x01, 0x02],
+}
+
+
+def h_bad_escape(eng, isa, which):
+    """An escaped instruction whose bytes end early or contradict their own length: an ill-formed sequence, reported as
+    ValueError/CFIStateError - no other exception type, and no state built from bytes that are not there."""
+    from gtirb_rewriting import _auxdata_offsetmap
+    from gtirb_rewriting.dwarf.cfi_eval import CFIStateError, evaluate_cfi_directives
+    g_isa, g_fmt = ISAS[isa]
+    ir = gtirb.IR()
+    m = gtirb.Module(name="m", isa=g_isa, file_format=g_fmt, ir=ir)
+    sect = gtirb.Section(name=".text", module=m, flags={gtirb.Section.Flag.Executable, gtirb.Section.Flag.Readable})
+    bi = gtirb.ByteInterval(contents=b"\x90" * 8, address=eng.int("A1", 0, None), section=sect)
+    b = gtirb.CodeBlock(offset=0, size=8, byte_interval=bi)
+    null = uuid.UUID(int=0)
+    table = _auxdata_offsetmap.cfi_directives.get_or_insert(m)
+    table[b] = {0: [(".cfi_startproc", [], null), (".cfi_def_cfa", [7, 8], null)],
+                4: [(".cfi_escape", list(BAD_ESCAPES[which]), null)],
+                8: [(".cfi_endproc", [], null)]}
+    try:
+        out = list(evaluate_cfi_directives(m, [b]))
+    except (ValueError, CFIStateError):
+        eng.ok()
+        return
+    eng.fail("ill-formed .cfi_escape %s (%s) was accepted: %r" % (which, BAD_ESCAPES[which], out[-2:]))
+
+
 def make_check(tier):
     global TIER
     TIER = tier
@@ -384,6 +421,9 @@ def make_check(tier):
     chk.classify_exception = classify
     extra = 2 if tier == "quick" else 3
     quick = tier == "quick"
+
+    for which in BAD_ESCAPES:
+        chk.add("bad-escape/x64/%s" % which, h_bad_escape, params=dict(isa="x64", which=which), timeout=300)
 
     def add(isa, prefix, layout, n, timeout=2400):
         chk.add("eval/%s/%s/%s/+%d" % (isa, prefix, layout, n), h_eval,
